@@ -472,6 +472,8 @@ pub fn type_ops<N: Nondet, const EQUAL: bool>(n: &mut N) {
     assert_one_result(&s, ran_ok(res), if EQUAL { 2 } else { 1 });
     pa!("C08", s.d.n_calls == 0);
     let c = s.d.cells[top(&s.d)];
+    // (a cover inside the branch of the other instantiation would be dead code and reported UNREACHABLE)
+    gv_cover!(lt == GarnishDataType::Type, "left operand is itself a type value");
     if EQUAL {
         let rc = s.d.cells[ops[1]];
         let rt = if rc.tag == GarnishDataType::Type { rc.ty } else { rc.tag };
@@ -482,9 +484,6 @@ pub fn type_ops<N: Nondet, const EQUAL: bool>(n: &mut N) {
         let want = bool_tag(lt == rt);
         pa!("C01", c.tag == want);
     } else {
-        if !EQUAL {
-            gv_cover!(lt == GarnishDataType::Type, "type of a type");
-        }
         pa!("C01", c.tag == GarnishDataType::Type && c.ty == lt);
     }
 }
